@@ -1,37 +1,46 @@
 #!/bin/bash
-# coverage.sh [quick|thorough-lite] : statement coverage of /repo's non-test code by the correspondence streams
-# (every stream of every property at its quick size, instrumented with `go build -cover`). Prints the total and the
-# functions below 100 %. This is a measure of how much of the code the model/implementation tie actually exercises;
-# it is not a check (nothing registered in MANIFEST.json depends on it). Scratch output lives in build/cov (ignored).
-set -e
-cd "$(dirname "$0")/.."
+# coverage.sh : statement coverage of /repo's library packages under ALL correspondence streams (quick sizes) and the
+# extractor's probes. A diagnostic for generator gaps, not a check: prints the blocks no stream reaches.
+# Scratch files live under /tmp/zogcov and are removed at the end.
+set -eu
 export GOFLAGS=-mod=mod GOPROXY=off GOSUMDB=off GOTOOLCHAIN=local
-COV=$PWD/build/cov; rm -rf $COV; mkdir -p $COV/data
-cp /repo/go.sum harness/go.sum
-cd harness
-PK=$(go list -deps ./cmd/corr | grep Oudwins/zog | tr '\n' ',' | sed 's/,$//')
-go build -tags verif -cover -coverpkg=verif/harness/cmd/corr,$PK -o $COV/corr ./cmd/corr
-cd ..
-GOCOVERDIR=$COV/data python3 - "$COV" <<'PY'
-import subprocess, sys, os
-sys.path.insert(0, os.getcwd())
+W=/tmp/zogcov; rm -rf $W; mkdir -p $W/data $W/bin $W/gen
+cd /verif/harness; cp /repo/go.sum . 2>/dev/null || true
+# the harness packages must be part of -coverpkg, or the binary writes no counters at all
+go build -tags verif -cover -coverpkg=./...,github.com/Oudwins/zog/... -o $W/bin/corr ./cmd/corr
+go build -tags verif -cover -coverpkg=./...,github.com/Oudwins/zog/... -o $W/bin/extract ./cmd/extract
+python3 - <<PY
+import sys,os,subprocess
+sys.path.insert(0,'/verif')
 from props import PROPS
-cov = sys.argv[1]
-for pid, cfg in PROPS.items():
-    for idx, st in enumerate(cfg["streams"]):
-        if st["stream"] == "conc":
-            continue
-        cmd = [cov + "/corr", "-stream", st["stream"], "-seed", str(1 + 7919 * idx), "-n", str(st["n_quick"]),
-               "-driver", os.getcwd() + "/lean/.lake/build/bin/driver", "-out", cov + "/sum.json", "-prop", pid]
-        if st.get("variant"):
-            cmd += ["-variant", st["variant"]]
-        r = subprocess.run(cmd, cwd="harness", capture_output=True, text=True)
-        if r.returncode:
-            print("stream failed:", pid, st, r.stderr[-300:])
+best={}
+for pid,p in PROPS.items():
+    for st in p.get('streams',[]):
+        if st['stream']=='conc': continue
+        k=(st['stream'],st.get('variant',''))
+        if k not in best or st['n_quick']>best[k][0]: best[k]=(st['n_quick'],pid)
+env=dict(os.environ,GOCOVERDIR='$W/data')
+for (s,v),(n,pid) in sorted(best.items()):
+    cmd=['$W/bin/corr','-stream',s,'-seed','1','-n',str(n),'-driver','/verif/lean/.lake/build/bin/driver','-out','$W/sum.json','-prop',pid]
+    if v: cmd+=['-variant',v]
+    c=f'/verif/corpus/{s}.cases'
+    if os.path.exists(c): cmd+=['-corpus',c]
+    r=subprocess.run(cmd,cwd='/verif/harness',env=env,capture_output=True,text=True)
+    if r.returncode!=0: print('stream',s,v,'rc',r.returncode)
+subprocess.run(['$W/bin/extract','-repo','/repo','-out','$W/gen','-json','$W/facts.json'],cwd='/verif/harness',env=env,capture_output=True,text=True)
 PY
-cd harness
-go tool covdata textfmt -i=$COV/data -o $COV/cov.txt
-go tool cover -func=$COV/cov.txt | grep -v verif/harness | awk '$3+0<100' | sed 's#github.com/Oudwins/zog/##'
-echo "uncovered blocks:"
-grep -v verif/harness $COV/cov.txt | awk '$NF==0' | sed 's#github.com/Oudwins/zog/##' | sort -t: -k1,1 -k2,2n | awk '{print "  " $1}' | tr '\n' ' '
-echo
+go tool covdata percent -i=$W/data | grep Oudwins/zog
+go tool covdata textfmt -i=$W/data -o $W/cov.txt
+python3 - <<PY
+import re,collections
+cov=collections.defaultdict(int)
+for l in open('$W/cov.txt'):
+    m=re.match(r'(.*):(\d+)\.\d+,(\d+)\.\d+ \d+ (\d+)',l)
+    if not m or 'Oudwins/zog' not in m.group(1): continue
+    cov[(m.group(1).replace('github.com/Oudwins/zog/',''),int(m.group(2)),int(m.group(3)))]+=int(m.group(4))
+un=collections.defaultdict(list)
+for (f,a,b),c in sorted(cov.items()):
+    if c==0: un[f].append(f"{a}-{b}")
+for f,bl in un.items(): print("UNCOVERED",f," ".join(bl))
+PY
+rm -rf $W
